@@ -11,9 +11,10 @@ import serde_props
 import c19
 import c16
 import c14
+import c17
 
 REGISTRY = {'C01': nodeops, 'C02': nodeops, 'C03': nodeops,
-            'C04': searches, 'C05': searches, 'C06': searches, 'C07': searches, 'C09': searches, 'C10': searches, 'C08': c08, 'C15': c15, 'C20': c20, 'C11': containers, 'C18': containers, 'C12': serde_props, 'C13': serde_props, 'C19': c19, 'C16': c16, 'C14': c14}
+            'C04': searches, 'C05': searches, 'C06': searches, 'C07': searches, 'C09': searches, 'C10': searches, 'C08': c08, 'C15': c15, 'C20': c20, 'C11': containers, 'C18': containers, 'C12': serde_props, 'C13': serde_props, 'C19': c19, 'C16': c16, 'C14': c14, 'C17': c17}
 EVALUATE = {nodeops: nodeops.evaluate_ctx, searches: searches.evaluate, c08: c08.evaluate, c15: c15.evaluate, c20: c20.evaluate, c19: c19.evaluate}
 EVALUATE_BY_PROP = {'C11': containers.evaluate_c11, 'C18': containers.evaluate_c18,
                     'C12': serde_props.evaluate_c12, 'C13': serde_props.evaluate_c13}
